@@ -267,6 +267,24 @@ func (e *Engine) unknownCall(s *State, name string, sig *types.Signature, recv V
 			ev.Args = append(ev.Args, a)
 		}
 	}
+	if c := e.ifaceContract(name); c != nil && s.spec == 0 {
+		off := 0
+		if recv == nil && sig.Recv() != nil {
+			off = 1
+		}
+		for _, mname := range strings.Split(argVal(c.D, "modifies"), ",") {
+			for k := 0; k < sig.Params().Len() && mname != ""; k++ {
+				if sig.Params().At(k).Name() == mname {
+					switch v := args[off+k].(type) {
+					case SliceV:
+						e.havocArg(s, v)
+					case PtrV:
+						e.havocPtr(s, v)
+					}
+				}
+			}
+		}
+	}
 	var results []Val
 	for i := 0; i < rs.Len(); i++ {
 		results = append(results, e.symbolic(s, "r_"+sanitize(name), rs.At(i).Type()))
@@ -285,6 +303,23 @@ func (e *Engine) unknownCall(s *State, name string, sig *types.Signature, recv V
 				switch {
 				case nm == "recv" && recv != nil:
 					pa = append(pa, recv)
+				case strings.HasPrefix(nm, "old_"): // the (frozen) argument as it was at the call
+					base, found := nm[4:], false
+					off, aoff := 0, 0
+					if recv != nil {
+						aoff = 1
+					} else if sig.Recv() != nil {
+						off = 1
+					}
+					for k := 0; k < sig.Params().Len(); k++ {
+						if sig.Params().At(k).Name() == base {
+							pa = append(pa, ev.Args[aoff+off+k])
+							found = true
+						}
+					}
+					if !found {
+						panic("interface contract names " + nm + ", which is not a parameter of " + name)
+					}
 				case strings.HasPrefix(nm, "res") && isDigits(nm[3:]):
 					var i int
 					fmt.Sscanf(nm, "res%d", &i)
